@@ -50,7 +50,8 @@ func main() {
 	var results []*FuncResult
 	var obs []*Obligation
 	for _, f := range e.allFuncs {
-		if e.specFns[f] || f.Parent() != nil || f.Name() == "init" || f.Origin() != nil {
+		isLemma := e.contractOf[f] != nil && e.contractOf[f].Flags["lemma"]
+		if (e.specFns[f] && !isLemma) || f.Parent() != nil || f.Name() == "init" || f.Origin() != nil {
 			continue
 		}
 		if !*allFuncs && !e.isRoot(f) {
